@@ -718,9 +718,20 @@ func (t *Topic) handleLeaveRequest(msg *ClientComMessage, sess *Session) {
 	}
 
 	// User wants to leave without unsubscribing.
+	if msg.init && !sess.isProxy() {
+		if pssd, ok := t.sessions[sess]; ok && pssd.isChanSub != asChan {
+			// Cannot address non-channel subscription as channel and vice versa: refuse before detaching anything.
+			sess.queueOut(ErrNotFoundReply(msg, now))
+			return
+		}
+	}
 	if pssd, _ := t.remSession(sess, asUid); pssd != nil {
 		if !sess.isProxy() {
 			sess.delSub(t.name)
+		}
+		if !msg.init {
+			// The session is being dropped: it leaves the way it was attached.
+			asChan = pssd.isChanSub
 		}
 		if pssd.isChanSub != asChan {
 			// Cannot address non-channel subscription as channel and vice versa.
